@@ -54,6 +54,9 @@ pub struct Case {
     pub parsers: Vec<Opts>,
     pub env: Vec<(Tok, Tok)>,
     pub ops: Vec<Op>,
+    /// T7 (position independence): after this case, run these, then this case once more; both
+    /// executions of this case must observe the same thing
+    pub interlude: Vec<Case>,
 }
 
 #[derive(Clone, Debug, PartialEq)]
@@ -590,6 +593,10 @@ impl Case {
                 ),
             ),
             ("ops", J::arr(self.ops.iter(), |o| o.to_j())),
+            (
+                "then_run_these_and_repeat",
+                J::arr(self.interlude.iter(), |c| c.to_j()),
+            ),
         ])
     }
     pub fn from_j(j: &J) -> Result<Case, String> {
@@ -621,6 +628,32 @@ impl Case {
                 .iter()
                 .map(Op::from_j)
                 .collect::<Result<_, _>>()?,
+            interlude: match j.get("then_run_these_and_repeat") {
+                Some(J::Arr(xs)) => xs.iter().map(Case::from_j).collect::<Result<_, _>>()?,
+                _ => Vec::new(),
+            },
         })
+    }
+}
+
+/// Run `f` on a brand new OS thread (joined at once, so nothing runs concurrently) with the
+/// simulated world installed there and the given environment. Thread-local state that bpaf -
+/// or anything it calls - may have left behind on the worker's main thread is absent there, so
+/// a "fresh twin" executed this way is fresh in that respect too.
+pub fn on_fresh_thread<R: Send + 'static>(
+    env: std::collections::BTreeMap<Tok, Tok>,
+    f: impl FnOnce() -> R + Send + 'static,
+) -> R {
+    let handle = std::thread::Builder::new()
+        .stack_size(16 << 20)
+        .spawn(move || {
+            world::install();
+            world::with(|s| s.env = env);
+            f()
+        })
+        .expect("spawn twin thread");
+    match handle.join() {
+        Ok(r) => r,
+        Err(p) => std::panic::resume_unwind(p),
     }
 }
